@@ -170,6 +170,9 @@ func secErrClass(err error) string {
 }
 
 func (x *secExec) Exec(a []string) string {
+	if len(a) > 0 && a[0] == "vm" {
+		return vmOp(a[1:]) // script VM ops (eng_vm.go): stateless, no wallet environment needed
+	}
 	e := x.env()
 	if len(a) == 0 {
 		return "bad-op"
